@@ -12,8 +12,7 @@ from __future__ import annotations
 
 import ast
 
-from ..linform import linform
-from ..pm import dotted, unparse, walk_no_nested
+from ..pm import unparse
 from ..report import Ctx
 from . import tablecore as T
 
@@ -29,70 +28,132 @@ STRUCTURAL = {"col_rel_width": "Utils._col_widths (column boundaries)", "border_
               "cell_nrow": "TableAttributes._encode line-count slot (not a rendering attribute)"}
 
 
-def _attr_of(fi, v: ast.AST) -> str | None:
-    """attribute name an expression is looked up from: get_broadcast_value('x', …) / get_attr('x', …) / Border(style=…) / local"""
-    if isinstance(v, ast.Call):
-        nm = dotted(v.func).split(".")[-1]
-        if nm in ("get_broadcast_value", "get_attr") and v.args and isinstance(v.args[0], ast.Constant):
-            return v.args[0].value
-        if nm == "Border":
-            for k in v.keywords:
-                if k.arg == "style":
-                    return _attr_of(fi, k.value)
-        if nm == "BroadcastValue":
-            for k in v.keywords:
-                if k.arg == "value" and isinstance(k.value, ast.Attribute) and isinstance(k.value.value, ast.Name) and k.value.value.id == "self":
-                    return k.value.attr
-        if isinstance(v.func, ast.Attribute) and v.func.attr == "iloc":
-            return _attr_of(fi, v.func.value)
-    if isinstance(v, ast.Name):
-        assigns = [a for a in ast.walk(fi.node) if isinstance(a, ast.Assign) and len(a.targets) == 1 and isinstance(a.targets[0], ast.Name) and a.targets[0].id == v.id]
-        vals = {(_attr_of(fi, a.value) if not (isinstance(a.value, ast.Constant) and a.value.value is None) else None) for a in assigns}
-        vals.discard(None)
-        if len(vals) == 1:
-            return vals.pop()
-    return None
+def _models_at(site: str, pm):
+    """(scenario tag, model class, {field: value}, (i, j) or None, record) for every TextContent / Cell / Row the interpreted scenarios of
+    `site` construct and emit; errors -> [("error", message)]"""
+    out, errors = [], []
+    if site == "TableAttributes._encode":
+        for rec in T.encode_scenarios(pm):
+            tag = f"{rec['shape']} attributes, cell_nrow {'set' if rec['nrow_set'] else 'unset'}"
+            if "error" in rec:
+                errors.append(f"{site} ({tag}): {rec['error']}")
+                continue
+            for i, row in enumerate(rec["rows"]):
+                out.append((tag, "Row", row.attrs, (i, 0), rec))
+                cells = row.attrs.get("row_cells")
+                for j, cell in enumerate(cells if isinstance(cells, (list, tuple)) else []):
+                    if isinstance(cell, T.Obj) and cell.cls == "Cell":
+                        out.append((tag, "Cell", cell.attrs, (i, j), rec))
+                        tc = cell.attrs.get("text")
+                        if isinstance(tc, T.Obj) and tc.cls == "TextContent":
+                            out.append((tag, "TextContent", tc.attrs, (i, j), rec))
+    elif site == "TextAttributes._encode_text":
+        for rec in T.text_scenarios(pm):
+            tag = f"{rec['shape']} attributes, method {rec['method']}"
+            if "error" in rec:
+                errors.append(f"{site} ({tag}): {rec['error']}")
+                continue
+            for tc in rec["texts"]:
+                t = tc.attrs.get("text")
+                idx = (int(t[1:]), 0) if isinstance(t, str) and t[:1] == "t" and t[1:].isdigit() else None
+                out.append((tag, "TextContent", tc.attrs, idx, rec))
+    else:
+        for rec in T.spanning_scenarios(pm):
+            tag = f"{rec['shape']} attributes"
+            if "error" in rec:
+                errors.append(f"{site} ({tag}): {rec['error']}")
+                continue
+            row = rec["row"]
+            out.append((tag, "Row", row.attrs, (0, rec["col"]), rec))
+            cells = row.attrs.get("row_cells")
+            for cell in (cells if isinstance(cells, (list, tuple)) else []):
+                if isinstance(cell, T.Obj) and cell.cls == "Cell":
+                    out.append((tag, "Cell", cell.attrs, (0, rec["col"]), rec))
+                    tc = cell.attrs.get("text")
+                    if isinstance(tc, T.Obj) and tc.cls == "TextContent":
+                        out.append((tag, "TextContent", tc.attrs, (0, rec["col"]), rec))
+    return out, errors
+
+
+def _entry(v):
+    """the attribute entry a model field was fed from: AV, None, or the value itself; Border(style=x) -> x"""
+    if isinstance(v, T.Obj) and v.cls == "Border":
+        return v.attrs.get("style")
+    return v
+
+
+SITES = ("TableAttributes._encode", "TextAttributes._encode_text", "RTFEncodingService.encode_spanning_row")
 
 
 def r09_1_2(ctx: Ctx) -> None:
+    """binding table (model field <- attribute), read off the model objects the three encoders construct when they are
+    interpreted on mock attributes whose entries all carry their attribute's name"""
     pm = ctx.pm
+    T.scenario_note(ctx, "R09.2/R09.3", "TableAttributes._encode / TextAttributes._encode_text / RTFEncodingService.encode_spanning_row",
+                    "for every attribute entry (each entry is an atom tagged with attribute name, row, column) and every cell value",
+                    {"_encode": "3x2 segment (table rows 3..5 of 7, row_offset 3) x attribute shapes 7x2 / 1x2 / 1x1 x cell_nrow unset/set",
+                     "_encode_text": "3 text rows x methods paragraph / line x attribute shapes 3x1 / 1x1",
+                     "encode_spanning_row": "column 1, attribute shapes 7x3 / 1x1", "evaluations": 6 + 4 + 2})
+    ctx.explain("[R09.1] completeness is set logic over the declared fields and the bindings observed in those evaluations; it does not depend on the witness shapes.")
     consumed: dict[str, set] = {}
-    sites = []
-    for short in ("TableAttributes._encode", "TextAttributes._encode_text", "RTFEncodingService.encode_spanning_row"):
+    n_sites = 0
+    for short in SITES:
         fi = pm.func(short)
-        for c in ast.walk(fi.node):
-            if isinstance(c, ast.Call) and dotted(c.func) in ("TextContent", "Cell", "Row"):
-                model = dotted(c.func)
-                table = {"TextContent": TEXT_BIND, "Cell": CELL_BIND, "Row": ROW_BIND}[model]
-                got = {}
-                for k in c.keywords:
-                    if k.arg in table:
-                        got[k.arg] = _attr_of(fi, k.value)
-                sites.append((fi, c, model, got))
-                for fld, want in table.items():
-                    if fld not in got:
-                        if model == "Cell" and short == "RTFEncodingService.encode_spanning_row" or model == "Cell" and fld == "border_right" and False:
-                            pass
-                        ctx.violation("R09.2", short, f"{model}.{fld} not passed", fi.where(c), f"{short}: {model}(...) is built without {fld}; the cell falls back to the model default instead of the attribute {want}")
+        models, errors = _models_at(short, pm)
+        for e in errors:
+            ctx.gap("R09.2", f"the models built by {e} could not be determined")
+        kinds = {m for _t, m, _a, _ij, _r in models}
+        n_sites += len(kinds)
+        for model in ("TextContent", "Cell", "Row"):
+            if model not in kinds:
+                continue
+            table = {"TextContent": TEXT_BIND, "Cell": CELL_BIND, "Row": ROW_BIND}[model]
+            for fld, want in table.items():
+                seen, missing, undetermined = set(), 0, 0
+                for _tag, m, attrs, _ij, _rec in models:
+                    if m != model:
                         continue
-                    ctx.instance("R09.2", fi.where(c), f"{short}: {model}.{fld} <- {got[fld]}")
-                    if got[fld] != want:
-                        ctx.violation("R09.2", short, f"{model}.{fld} <- {got[fld]}", fi.where(c), f"{short}: {model}.{fld} is fed from attribute `{got[fld]}`, expected `{want}`")
+                    if fld not in attrs:
+                        missing += 1
+                        continue
+                    v = _entry(attrs[fld])
+                    if isinstance(v, T.AV):
+                        seen.add(v.name)
+                    elif isinstance(v, T.Sym):
+                        undetermined += 1
+                    elif v is not None:
+                        seen.add(repr(v))
+                if missing and not seen:
+                    ctx.violation("R09.2", short, f"{model}.{fld} not passed", fi.where(), f"{short}: {model}(...) is built without {fld}; the cell falls back to the model default instead of the attribute {want}")
+                    continue
+                if not seen:
+                    if undetermined:
+                        ctx.gap("R09.2", f"{short}: the source of {model}.{fld} could not be determined")
+                    else:
+                        ctx.violation("R09.2", short, f"{model}.{fld} <- None", fi.where(), f"{short}: {model}.{fld} is always None, expected the attribute `{want}`")
+                    continue
+                for got in sorted(seen):
+                    ctx.instance("R09.2", fi.where(), f"{short}: {model}.{fld} <- {got}")
+                    if got != want:
+                        ctx.violation("R09.2", short, f"{model}.{fld} <- {got}", fi.where(), f"{short}: {model}.{fld} is fed from attribute `{got}`, expected `{want}`")
                     else:
                         consumed.setdefault(want, set()).add(short)
-    if len(sites) < 7:
-        ctx.violation("R09.2", "constructor sites", f"{len(sites)} sites", pm.func("TableAttributes._encode").where(), "the cell/text/row models are no longer constructed at the three encoding sites")
+                if missing:
+                    ctx.violation("R09.2", short, f"{model}.{fld} not passed", fi.where(), f"{short}: some {model}(...) are built without {fld}")
+    if n_sites < 7 and not ctx.deferred_errors:
+        ctx.gap("R09.2", f"only {n_sites} of the 7 (site, model) constructions of TextContent/Cell/Row were re-identified")
     # R09.1 completeness
     fields = {}
     for cls in ("TextAttributes", "TableAttributes"):
         for f in pm.classes[cls].fields:
             fields[f] = cls
-    col = unparse(pm.func("ColorService.collect_document_colors").node)
     for f, cls in sorted(fields.items()):
         if f in consumed:
             ctx.instance("R09.1", pm.cls(cls).path + f":{pm.classes[cls].fields[f].lineno}", f"{cls}.{f} reaches an emitter at {sorted(consumed[f])}")
         elif f in STRUCTURAL:
             ctx.instance("R09.1", pm.cls(cls).path + f":{pm.classes[cls].fields[f].lineno}", f"{cls}.{f} consumed by {STRUCTURAL[f]}")
+        elif ctx.deferred_errors and (f in TEXT_BIND.values() or f in CELL_BIND.values() or f in ROW_BIND.values()):
+            ctx.instance("R09.1", pm.cls(cls).path + f":{pm.classes[cls].fields[f].lineno}", f"{cls}.{f}: consumption undetermined (encoder not interpreted)")
         else:
             ctx.instance("R09.1", pm.cls(cls).path + f":{pm.classes[cls].fields[f].lineno}", f"{cls}.{f} is accepted and validated but never reaches an emitter")
             ctx.violation("R09.1", f"{cls}.{f}", "never emitted", pm.cls(cls).path + f":{pm.classes[cls].fields[f].lineno}",
@@ -101,49 +162,65 @@ def r09_1_2(ctx: Ctx) -> None:
 
 
 def r09_3(ctx: Ctx) -> None:
+    """lookup index: cell (i, j) of a segment starting at table row `off` carries entry [(i + off) % R][j % C] of every attribute
+    (scalar -> every cell, row vector -> its column, matrix -> cell by cell); row-level attributes use column 0"""
     pm = ctx.pm
-    g = pm.func("TableAttributes._encode.<locals>.get_broadcast_value")
-    t = unparse(g.node)
-    rets = [r.value for r in walk_no_nested(g.node) if isinstance(r, ast.Return)]
-    ok = False
-    desc = unparse(rets[0]) if rets else "?"
-    if len(rets) == 1 and isinstance(rets[0], ast.Call) and isinstance(rets[0].func, ast.Attribute) and rets[0].func.attr == "iloc":
-        call = rets[0]
-        base = call.func.value
-        a = call.args
-        ok = isinstance(base, ast.Call) and dotted(base.func) == "BroadcastValue" and \
-            {k.arg: unparse(k.value) for k in base.keywords} == {"value": "attr_value", "dimension": "dim"} and len(a) == 2 and \
-            linform(a[0]) == {"row_idx": 1, "row_offset": 1} and linform(a[1]) == {"col_idx": 1} and "attr_value = getattr(self, attr_name)" in t
-    ctx.instance("R09.3", g.where(), f"cell attribute lookup: {desc}")
-    if not ok:
-        ctx.violation("R09.3", g.short, "lookup " + desc, g.where(),
-                      "a data cell's attribute is not looked up as BroadcastValue(value=<attribute>, …).iloc(row + row_offset, col) on the attribute itself "
-                      "(expanding to the segment's shape first cuts a full matrix down to the segment's first rows)")
-    il = pm.func("BroadcastValue.iloc")
-    ti = unparse(il.node)
-    ok = "self.value[row_index % len(self.value)][column_index % len(self.value[0])]" in ti
-    ctx.instance("R09.3", il.where(), f"BroadcastValue.iloc: value[r % R][c % C]: {ok}")
-    if not ok:
-        ctx.violation("R09.3", il.short, "modular rule", il.where(), "BroadcastValue.iloc is no longer value[row % nrows][col % ncols] (scalar -> every cell, vector -> its column, matrix -> cell by cell)")
+    off = T.SEG[0]
+    for short in SITES:
+        fi = pm.func(short)
+        models, errors = _models_at(short, pm)
+        for e in errors:
+            ctx.gap("R09.3", f"the attribute lookups of {e} could not be determined")
+        by_tag: dict[str, list] = {}
+        n = 0
+        for tag, model, attrs, ij, rec in models:
+            if ij is None:
+                continue
+            table = {"TextContent": TEXT_BIND, "Cell": CELL_BIND, "Row": ROW_BIND}[model]
+            for fld in table:
+                v = _entry(attrs.get(fld))
+                if not isinstance(v, T.AV):
+                    continue
+                n += 1
+                i, j = ij
+                if short == "TableAttributes._encode":
+                    want = T.expected_entry(v.name, rec["dims"], i + off, j)
+                    alt = T.expected_entry(v.name, rec["dims"], i, j) if fld == "border_right" else want   # the right border of the last column is read without the offset (accepted quirk)
+                else:
+                    want = alt = T.expected_entry(v.name, rec["dims"], i, j)
+                if v != want and v != alt:
+                    by_tag.setdefault(tag, []).append(f"{model}.{fld} of cell ({i}, {j}) <- {v!r}, expected {want!r}")
+        ctx.instance("R09.3", fi.where(), f"{short}: {n} attribute entries reaching models checked against [(i + offset) % R][j % C]")
+        for tag, bad in by_tag.items():
+            what = "the cell's own (row + row_offset, column)" if short == "TableAttributes._encode" else "the row / column the text belongs to"
+            ctx.violation("R09.3", short, f"lookup ({tag.split(',')[0]})", fi.where(),
+                          f"{short} ({tag}): {len(bad)} attribute entries are not looked up at {what}, e.g. {bad[0]}"
+                          + (" (a segment of a paginated table starts at row_offset; expanding to the segment's shape first cuts a full matrix down to the segment's first rows)" if short == "TableAttributes._encode" else ""))
     e = pm.func("TableAttributes._encode")
-    # cell-level lookups use (i, j); row-level ones (i, 0)
-    bad = []
-    n = 0
-    for c in ast.walk(e.node):
-        if isinstance(c, ast.Call) and dotted(c.func) == "get_broadcast_value" and len(c.args) == 3:
-            n += 1
-            attr = c.args[0].value if isinstance(c.args[0], ast.Constant) else "?"
-            i_, j_ = unparse(c.args[1]), unparse(c.args[2])
-            want_j = "0" if attr in ("cell_justification", "cell_height") else "j"
-            if i_ != "i" or j_ != want_j:
-                bad.append((attr, i_, j_))
-    ctx.instance("R09.3", e.where(), f"{n} attribute lookups in _encode use (i, j) (row-level attributes (i, 0))")
-    for attr, i_, j_ in bad:
-        ctx.violation("R09.3", e.short, f"{attr} at ({i_}, {j_})", e.where(), f"_encode looks up {attr} at ({i_}, {j_}) instead of the cell's own (i, j)")
-    br = "BroadcastValue(value=self.border_right, dimension=dim).iloc(i, j)" in unparse(e.node)
-    sig = [a.arg for a in e.node.args.args]
-    if "row_offset" not in sig:
+    if any(rec.get("no_offset") for rec in T.encode_scenarios(pm)):
         ctx.violation("R09.3", e.short, "no row_offset", e.where(), "_encode can no longer be told where its segment starts")
+    # BroadcastValue.iloc itself
+    il = pm.func("BroadcastValue.iloc")
+    ps = [a.arg for a in il.node.args.args]
+    T.scenario_note(ctx, "R09.3", "BroadcastValue.iloc", "for every entry of the block", {"block shapes": [(3, 2), (1, 2), (1, 1), (3, 1)], "indices": [(0, 0), (7, 5), (2, 1), (4, 3)], "evaluations": 16})
+    bad = []
+    try:
+        for shape in ((3, 2), (1, 2), (1, 1), (3, 1)):
+            for (r, c) in ((0, 0), (7, 5), (2, 1), (4, 3)):
+                sc = T.Scen(pm)
+                me = T.Obj("bv", cls="BroadcastValue", value=T.matrix("m", *shape), dimension=None)
+                runs = sc.runs(il, {ps[0]: me, ps[1]: r, ps[2]: c})
+                got = [x.ret for _v, x in runs]
+                if len(runs) != 1 or runs[0][1].raised or got != [T.expected_entry("m", shape, r, c)]:
+                    bad.append(f"iloc({r}, {c}) on a {shape[0]}x{shape[1]} block gives {got[0] if got else '?'!r}" + (f" / raises {runs[0][1].raised}" if runs and runs[0][1].raised else ""))
+        ctx.instance("R09.3", il.where(), f"BroadcastValue.iloc: value[r % R][c % C] on 16 (block shape, index) pairs: {not bad}")
+        if bad:
+            ctx.violation("R09.3", il.short, "modular rule", il.where(), "BroadcastValue.iloc is no longer value[row % nrows][col % ncols] (scalar -> every cell, vector -> its column, matrix -> cell by cell): " + bad[0])
+    except Exception as ex:
+        from ..pm import AnalysisError
+        if not isinstance(ex, (AnalysisError, IndexError)):
+            raise
+        ctx.gap("R09.3", f"BroadcastValue.iloc could not be interpreted: {ex}")
 
 
 def r09_5(ctx: Ctx) -> None:
@@ -167,13 +244,15 @@ def r09_5(ctx: Ctx) -> None:
 
 def check(ctx: Ctx) -> None:
     ctx.explain(
-        "R09.1 every annotated field of TextAttributes/TableAttributes is read at an emitter site (through the binding table) "
-        "or by a listed structural consumer; R09.2 the 14+5+2 (model field <- attribute) bindings hold at all constructor "
-        "sites of TextContent/Cell/Row in _encode, _encode_text and encode_spanning_row; R09.3 the lookup closure is "
-        "BroadcastValue(value=attr).iloc(row + row_offset, col) with iloc = value[r % R][c % C] and (i, j) arguments; "
-        "R09.4 row_offset = lower bound of the slice (tablecore cursor rule); R09.5 row-space agreement; R09.6 per-page deep "
-        "copy and alias-free expansion (C07 R07.4); R09.7 attribute columns cut by original-frame positions (C08 R08.3).")
-    ctx.assume("pydantic validates attribute shapes; BroadcastValue is the only lookup path")
+        "The three encoders that build TextContent/Cell/Row (TableAttributes._encode, TextAttributes._encode_text, encode_spanning_row) are "
+        "interpreted on mock attribute objects whose every entry carries (attribute name, row, column) (tablecore.Scen; no repository code "
+        "runs). R09.2 the 14+5+2 (model field <- attribute) bindings are read off the constructed models; R09.1 every annotated field of "
+        "TextAttributes/TableAttributes reaches a model field that way or a listed structural consumer; R09.3 the entry reaching cell (i, j) "
+        "of a segment starting at table row `off` is [(i + off) % R][j % C] for matrix, row-vector and scalar attributes (BroadcastValue.iloc "
+        "itself is interpreted on 16 (block, index) pairs); R09.4 row_offset = first row of the segment (tablecore cursor scenarios); R09.5 "
+        "row-space agreement; R09.6 per-page deep copy and alias-free, exactly shaped expansion (C07 R07.4, BroadcastValue.to_list interpreted "
+        "on 8 (block, shape) pairs); R09.7 attribute columns cut by original-frame positions (C08 R08.3).")
+    ctx.assume("pydantic validates attribute shapes; BroadcastValue is the only lookup path; its `value` validator normalises to nested lists (tablecore.nested_list_form)")
     ctx.undecided("equality of each emitted property value with the attribute value for concrete tables (run-time)")
     r09_1_2(ctx)
     r09_3(ctx)
